@@ -1,15 +1,233 @@
 /-
   Protocol operations on stand-alone `_PackedBoolArray` objects (array level of C05).
   Lines whose operation name starts with `p.` are routed here by Model/Dispatch.lean.
+
+  World = one byte heap (all numpy buffers of the history, see Model/Packed.lean) and the
+  named `_PackedBoolArray` objects (view descriptors into the heap).
+
+  Operations (first positional argument(s) = object names; `none` = omitted / Python `None`):
+
+    p.new a [n=13] [start=3] [stop=5] [data=b1.2.3]    `_PackedBoolArray(size, data_buffer, start_index, stop_index)`
+    p.frombool a bits=0110 [start=3]                   `from_boolean_array`
+    p.slice v a [lo=3] [hi=-2] [step=1]                `v = a[lo:hi:step]` (a view)
+    p.len a | p.arr a | p.repr a | p.data a            `len(a)`, `np.asarray(a)`, `str(a)`, `a.data_array`
+    p.get a i=5 | p.getidx a idx=1,2,2 [list=1]        `a[i]`, `a[idx]`
+    p.set a i=5 v=T                                    `a[i] = v`
+    p.setslice a [lo=] [hi=] v=T | vals=0101 | rhs=b   `a[lo:hi] = …`
+    p.setidx a idx=1,2 v=T | vals=01 [list=1]          `a[idx] = …`
+    p.iop a op=and|or|xor v=T | rhs=b                  `a op= …`
+    p.invert a                                         `a.invert()`
+    p.bop r a op=and|or|xor v=T | rhs=b                `r = a op …`
+    p.not r a | p.copy r a                             `r = ~a`, `r = a.copy()`
+    p.resize a n=40                                    `a.resize(n)`
+    p.sum a | p.sumshape a shape=2,3,16 [axis=1]       `a.sum()`, `a.sum(shape=…, axis=…)`
+    p.fml a mask=0|1                                   `a._extract_first_middle_last(mask_extra=…)`
+    p.lut                                              the 256-entry `_bit_count` table
+    p.dump                                             `np.asarray` of every object, by name
+
+  Observations: `ok`, `err <ExceptionClass>`, bit strings, numbers.
 -/
 import HealSparse.Model.Text
+import HealSparse.Model.Packed
 namespace HS
+open Packed
 
 structure PackedWorld where
-  dummy : Unit := ()
+  heap : Heap := #[]
+  views : List (String × PBA) := []
+
+namespace PackedWorld
+
+def get? (w : PackedWorld) (n : String) : Option PBA := (w.views.find? (·.1 == n)).map (·.2)
+def put (w : PackedWorld) (n : String) (p : PBA) : PackedWorld :=
+  { w with views := (n, p) :: w.views.filter (·.1 != n) }
+
+end PackedWorld
+
+namespace PackedIO
+
+def perr (e : PErr) : String := "err " ++ e.tag
+
+/-- absent or `none` ↦ `some none`; an integer ↦ `some (some i)`; anything else ↦ `none` -/
+def optInt (a : Args) (k : String) : Option (Option Int) :=
+  match a.get? k with
+  | none => some none
+  | some "none" => some none
+  | some s => s.toInt?.map some
+
+def parseBits (s : String) : Option (List Bool) :=
+  if s == "_" then some [] else
+  s.toList.mapM fun c => if c == '1' then some true else if c == '0' then some false else none
+
+def parseBool (s : String) : Option Bool :=
+  if s == "T" then some true else if s == "F" then some false else none
+
+def parseOp (s : String) : Option Op :=
+  match s with
+  | "and" => some .and | "or" => some .or | "xor" => some .xor | _ => none
+
+def parseBytes (s : String) : Option (List Byte) :=
+  if !s.startsWith "b" then none else
+  let body := (s.drop 1).toString
+  if body == "" then some [] else
+  ((body.splitOn ".").mapM String.toNat?).map fun l => l.map fun n => BitVec.ofNat 8 n
+
+def showBytes (l : List Byte) : String := "b" ++ ".".intercalate (l.map fun b => toString b.toNat)
+
+def showPart (p : Part) : String :=
+  match p.arr with
+  | none => "None"
+  | some a => showBits a ++ "/" ++ toString p.lo ++ "/" ++ toString p.hi
+
+def showFML (h : Heap) (p : PBA) (f : FML) : String :=
+  let mid := match f.mid with
+    | none => "None"
+    | some (a, b) => showBytes ((List.range (b - a)).map fun i => rdB h (p.off + a + i))
+  s!"F={showPart f.first} M={mid} L={showPart f.last}"
+
+end PackedIO
+open PackedIO
+
+/-- value operand of an assignment / logic operation -/
+inductive POperand where
+  | bool (b : Bool)
+  | arr (l : List Bool)
+  | pba (q : PBA)
+
+def packedOperand (w : PackedWorld) (a : Args) : Option POperand :=
+  match a.get? "v", a.get? "vals", a.get? "rhs" with
+  | some v, none, none => (parseBool v).map .bool
+  | none, some vs, none => (parseBits vs).map .arr
+  | none, none, some r => (w.get? r).map .pba
+  | _, _, _ => none
 
 def stepPacked (w : PackedWorld) (op : String) (a : Args) : PackedWorld × String :=
-  let _ := a
-  (w, "bad-op:unknown-packed-op:" ++ op)
+  let bad (s : String) : PackedWorld × String := (w, "bad-op:" ++ s)
+  -- run `k` on the object named by positional argument `i`
+  let withObj (i : Nat) (k : PBA → PackedWorld × String) : PackedWorld × String :=
+    match a.pos[i]? with
+    | none => bad "no-name"
+    | some n => match w.get? n with
+      | none => bad "no-such-array"
+      | some p => k p
+  let mut' (r : Except PErr Heap) : PackedWorld × String :=
+    match r with
+    | .ok h => ({ w with heap := h }, "ok")
+    | .error e => (w, perr e)
+  let mk (n : String) (r : Except PErr (Heap × PBA)) : PackedWorld × String :=
+    match r with
+    | .ok (h, p) => (({ w with heap := h } : PackedWorld).put n p, "ok")
+    | .error e => (w, perr e)
+  match op with
+  | "p.new" =>
+    match a.pos, optInt a "n", optInt a "start", optInt a "stop" with
+    | n :: _, some size, some start, some stop =>
+      match a.get? "data" with
+      | none => mk n (init w.heap size none start stop)
+      | some d => match parseBytes d with
+        | none => bad "data"
+        | some bs => mk n (init w.heap size (some bs) start stop)
+    | _, _, _, _ => bad "p.new"
+  | "p.frombool" =>
+    match a.pos, parseBits (a.getD "bits" "_"), optInt a "start" with
+    | n :: _, some bits, some start => mk n (fromBool w.heap bits start)
+    | _, _, _ => bad "p.frombool"
+  | "p.slice" =>
+    match a.pos, optInt a "lo", optInt a "hi", optInt a "step" with
+    | v :: _ :: _, some lo, some hi, some step => withObj 1 fun p =>
+      match slice p lo hi step with
+      | .ok q => (w.put v q, "ok")
+      | .error e => (w, perr e)
+    | _, _, _, _ => bad "p.slice"
+  | "p.len" => withObj 0 fun p =>
+    match p.pyLen with
+    | .ok n => (w, toString n)
+    | .error e => (w, perr e)
+  | "p.arr" => withObj 0 fun p => (w, showBits (toBools w.heap p))
+  | "p.repr" => withObj 0 fun p => (w, repr p)
+  | "p.data" => withObj 0 fun p =>
+    match dataArray w.heap p with
+    | .ok bs => (w, showBytes bs)
+    | .error e => (w, perr e)
+  | "p.get" => withObj 0 fun p =>
+    match (a.get? "i").bind String.toInt? with
+    | none => bad "i"
+    | some i => match getInt w.heap p i with
+      | .ok b => (w, if b then "T" else "F")
+      | .error e => (w, perr e)
+  | "p.getidx" => withObj 0 fun p =>
+    match parseInts (a.getD "idx" "_") with
+    | none => bad "idx"
+    | some idx => match getIdx w.heap p idx (a.flag "list") with
+      | .ok bs => (w, showBits bs)
+      | .error e => (w, perr e)
+  | "p.set" => withObj 0 fun p =>
+    match (a.get? "i").bind String.toInt?, (a.get? "v").bind parseBool with
+    | some i, some v => mut' (setInt w.heap p i v)
+    | _, _ => bad "p.set"
+  | "p.setslice" => withObj 0 fun p =>
+    match optInt a "lo", optInt a "hi", packedOperand w a with
+    | some lo, some hi, some (.bool v) => mut' (setSliceBool w.heap p lo hi v)
+    | some lo, some hi, some (.arr vs) => mut' (setSliceArr w.heap p lo hi vs)
+    | some lo, some hi, some (.pba q) => mut' (setSlicePBA w.heap p lo hi q)
+    | _, _, _ => bad "p.setslice"
+  | "p.setidx" => withObj 0 fun p =>
+    match parseInts (a.getD "idx" "_"), packedOperand w a with
+    | some idx, some (.bool v) => mut' (setIdxBool w.heap p idx v (a.flag "list"))
+    | some idx, some (.arr vs) =>
+      let (h, e) := setIdxArr w.heap p idx vs (a.flag "list")
+      ({ w with heap := h }, match e with | none => "ok" | some e => perr e)
+    | _, _ => bad "p.setidx"
+  | "p.iop" => withObj 0 fun p =>
+    match (a.get? "op").bind parseOp, packedOperand w a with
+    | some o, some (.bool v) => mut' (iopBool w.heap p o v)
+    | some o, some (.pba q) => mut' (iopPBA w.heap p q o)
+    | _, _ => bad "p.iop"
+  | "p.invert" => withObj 0 fun p => mut' (invert w.heap p)
+  | "p.bop" =>
+    match a.pos with
+    | r :: _ :: _ => withObj 1 fun p =>
+      match (a.get? "op").bind parseOp, packedOperand w a with
+      | some o, some (.bool v) => mk r (bopBool w.heap p o v)
+      | some o, some (.pba q) => mk r (bopPBA w.heap p q o)
+      | _, _ => bad "p.bop"
+    | _ => bad "p.bop"
+  | "p.not" =>
+    match a.pos with
+    | r :: _ :: _ => withObj 1 fun p => mk r (notCopy w.heap p)
+    | _ => bad "p.not"
+  | "p.copy" =>
+    match a.pos with
+    | r :: _ :: _ => withObj 1 fun p => mk r (copy w.heap p)
+    | _ => bad "p.copy"
+  | "p.resize" => withObj 0 fun p =>
+    match (a.get? "n").bind String.toInt? with
+    | none => bad "n"
+    | some n =>
+      let ((h, p'), e) := resize w.heap p n
+      (({ w with heap := h } : PackedWorld).put (a.pos.headD "") p',
+        match e with | none => "ok" | some e => perr e)
+  | "p.sum" => withObj 0 fun p =>
+    match sum w.heap p with
+    | .ok n => (w, toString n)
+    | .error e => (w, perr e)
+  | "p.sumshape" => withObj 0 fun p =>
+    match parseNats (a.getD "shape" "_"), optInt a "axis" with
+    | some shape, some axis =>
+      match sumShaped w.heap p shape axis with
+      | .ok (dims, vals) =>
+        if axis.isNone then (w, toString (vals.headD 0))
+        else (w, "x".intercalate (dims.map toString) ++ ":" ++ showNats vals)
+      | .error e => (w, perr e)
+    | _, _ => bad "p.sumshape"
+  | "p.fml" => withObj 0 fun p =>
+    match p.fml w.heap (a.flag "mask") with
+    | .ok f => (w, showFML w.heap p f)
+    | .error e => (w, perr e)
+  | "p.lut" => (w, showNats ((List.range 256).map fun n => (bitCount (BitVec.ofNat 8 n)).toNat))
+  | "p.dump" =>
+    let vs := w.views.mergeSort fun x y => !(y.1 < x.1)
+    (w, showList (fun (x : String × PBA) => x.1 ++ "=" ++ showBits (toBools w.heap x.2)) vs)
+  | _ => (w, "bad-op:unknown-packed-op:" ++ op)
 
 end HS
